@@ -14,10 +14,18 @@ for p in sorted(glob.glob(root + "/seeded/*/meta.json")):
     rows.append("| %s | %s | %s | `./run.sh %s quick` exit 1: %s |" % (m["id"], files, summ, m["property"], own or "**MISSED**"))
 t = "| seed | files | change | reported by |\n|---|---|---|---|\n" + "\n".join(rows) + "\n"
 b = []
+res = {}
+rp = root + "/benign/RESULTS.txt"
+if os.path.exists(rp):
+    for line in open(rp):
+        if ":" in line:
+            k, v = line.split(":", 1)
+            res[k.strip()] = v.strip()
 for p in sorted(glob.glob(root + "/benign/*/meta.json")):
     m = json.load(open(p))
-    b.append("| %s | %s | %s |" % (os.path.basename(os.path.dirname(p)), m.get("kind", ""), (m.get("summary") or "").replace("|", "/").replace("\n", " ")[:140]))
-bt = "| patch | kind | change |\n|---|---|---|\n" + "\n".join(b) + "\n"
+    bid = os.path.basename(os.path.dirname(p))
+    b.append("| %s | %s | %s | %s |" % (bid, m.get("kind", ""), (m.get("summary") or "").replace("|", "/").replace("\n", " ")[:140], res.get(bid, "")))
+bt = "| patch | kind | change | all rules on the patched tree |\n|---|---|---|---|\n" + "\n".join(b) + "\n"
 s = open(root + "/DESIGN.md").read()
 s = re.sub(r"<!-- SEEDS-BEGIN -->.*?<!-- SEEDS-END -->", "<!-- SEEDS-BEGIN -->\n" + t + "<!-- SEEDS-END -->", s, flags=re.S)
 s = re.sub(r"<!-- BENIGN-BEGIN -->.*?<!-- BENIGN-END -->", "<!-- BENIGN-BEGIN -->\n" + bt + "<!-- BENIGN-END -->", s, flags=re.S)
